@@ -708,3 +708,185 @@ def add_lifecycle(reg):
     for s in specs:
         reg.add(s)
     return specs
+
+
+# ------------------------------------------------------------------------------------------------
+# merge_files (C05): refusal, source frame, merged user block
+
+T1_OVL = "overlay nodes (self['/'], ds['/'], attrs, keys) are opaque here: reads are 'ovl-read' effects on their record, writes 'ovl-write' effects; what is copied is decided by C01's bounded refinement check"
+T5_COPY = "T5 pydantic copy(update=...) returns a NEW object (distinct from all existing ones) with the same field values except the updated ones"
+
+
+class OvlNode(SVal):
+    def __init__(self, owner, kind="group"):
+        self.owner, self.kind = owner, kind
+
+    def py_truth(self, cx):
+        return True
+
+    def attr_attrs(self, cx):
+        return OvlNode(self.owner, "attrs")
+
+    def meth_items(self, cx):
+        from pyvc.containers import SSet
+
+        cx.effect("ovl-read", self.owner)
+        keys = SSet.fresh(STR, "ovl_keys")
+        node = self
+        from pyvc.containers import SetIter
+
+        class _Items(SVal):
+            def py_iter_schema(self_inner, cx2):
+                return SetIter(STR, keys.dom, lambda kt: STuple((SStr(kt), OvlValue(node.owner))))
+
+        return _Items()
+
+    def meth_keys(self, cx):
+        from pyvc.containers import SSet
+
+        cx.effect("ovl-read", self.owner)
+        return SSet.fresh(STR, "ovl_keys")
+
+    def py_getitem(self, cx, k):
+        cx.effect("ovl-read", self.owner)
+        return OvlNode(self.owner, "child")
+
+    def py_setitem(self, cx, k, v):
+        cx.effect("ovl-write", self.owner)
+
+
+class OvlValue(SVal):
+    def __init__(self, owner):
+        self.owner = owner
+
+
+class TargetRecord(SVal):
+    """A record created by `type(self)(target, 'x')` inside merge_files (constructor contract: creates only new files)."""
+
+    def __init__(self, cx, target):
+        self.path = path_term(target)
+        self.file = z3.String(fresh_name("merged_container_file"))
+        cx.effect("h5create", self.file, "x")
+
+    def py_truth(self, cx):
+        return True
+
+    def meth___enter__(self, cx):
+        return self
+
+    def meth___exit__(self, cx):
+        cx.effect("commit-close", self.file)
+
+    def py_getitem(self, cx, k):
+        return OvlNode("target")
+
+    def attr_ih5_files(self, cx):
+        return [PathVal(self.file)]
+
+
+def h5_copy_binding(cx, src, trg_group, trg_path, **kw):
+    cx.effect("ovl-read", src.owner)
+    cx.effect("ovl-write", trg_group.owner)
+
+
+ALLOC0 = z3.Function("allocated_at_entry", Ref, z3.BoolSort())
+
+
+def ub_copy(cx, ub, update=None):
+    new = SRef.fresh("IH5UserBlock", "ub_copy")
+    cx.assume(z3.Not(ALLOC0(new.t)))  # T5_COPY: a new object
+    d = ClassDecl.get("IH5UserBlock")
+    upd = update or {}
+    for f, ft in d.all_fields().items():
+        if f in upd:
+            new.py_setattr(cx, f, upd[f])
+        else:
+            cx.assume(ft.unwrap(cx, new.py_getattr(cx, f)) == ft.unwrap(cx, ub.py_getattr(cx, f)))
+    cx.writes[:] = [w for w in cx.writes if w[1] is not new]  # initialisation of a fresh object is not a write to existing state
+    cx.ghost.setdefault("fresh_ubs", []).append(new)
+    return new
+
+
+class MergeFiles(LifeCycle):
+    qual = "IH5Record.merge_files"
+    props = ("C05", "C02")
+
+    def init(self):
+        LifeCycle.init(self)
+        self.inline |= {"IH5Record._fixes_after_merge"}
+        self.bindings["h5_copy_from_to"] = h5_copy_binding
+        triv = LoopSpec(lambda cx, env, it: [], modifies=[])
+        self.loops[0] = LoopSpec(lambda cx, env, it: [], modifies=["k", "v"])
+        self.loops[1] = LoopSpec(lambda cx, env, it: [], modifies=["name"])
+
+    def setup(self, cx):
+        a = LifeCycle.setup(self, cx)
+        a.target = PathVal(z3.String("target"))
+        j = z3.Int(fresh_name("fr_j"))
+        return a
+
+    def requires(self, cx, a):
+        k = z3.String(fresh_name("al_k"))
+        um = a.self.fields["_ublocks"]
+        return LifeCycle.requires(self, cx, a) + [("has-files", files_of(a.self).n > 0), ("userblocks-exist-at-entry", z3.ForAll([k], z3.Implies(um.has(k), ALLOC0(um.get_term(k)))))]
+
+    def raises(self, cx, a):
+        rec = entry_rec(a)
+        return {"ValueError": z3.Or(rec.fields["_closed"].t, self.writable_at_entry(cx, a))}
+
+    def on_raise(self, cx, a, exc):
+        return [("refused-without-effect", z3.BoolVal(not cx.fx), "merging is refused while there are uncommitted changes, without any effect")]
+
+    def ensures(self, cx, a, res):
+        rec = a.self
+        n = a.old_files.n
+        out = []
+        # frame: the source object is unchanged
+        out.append(("source-files-unchanged", files_of(rec).ext_eq(a.old_files), "merging leaves the still-open source object unchanged (file list)"))
+        out.append(("source-userblock-map-unchanged", rec.fields["_ublocks"].same(cx, a.old_ublocks), "merging leaves the still-open source object unchanged (user blocks)"))
+        fresh = cx.ghost.get("fresh_ubs", [])
+        k = z3.String(fresh_name("mk"))
+        d = ClassDecl.get("IH5UserBlock")
+        conds = []
+        for f, ft in d.all_fields().items():
+            key = f"IH5UserBlock.{f}"
+            cur = cx.heap_array(key, ft)
+            with at_entry(cx):
+                old = cx.heap_array(key, ft)
+            conds.append(z3.ForAll([k], z3.Implies(a.old_ublocks.has(k), z3.Select(cur, a.old_ublocks.get_term(k)) == z3.Select(old, a.old_ublocks.get_term(k)))))
+        out.append(("source-userblocks-unchanged", z3.And(*conds), "no user block of the source is modified (ih5_meta stays the same)"))
+        # effects: nothing of the source is written
+        src_writes = [e for e in cx.fx if e[0] == "ovl-write" and e[1] != "target"]
+        out.append(("no-write-through-source-nodes", z3.BoolVal(not src_writes), "data is only written into the merged container"))
+        ubw = [e for e in cx.fx if e[0] == "ubwrite"]
+        tr = [e for e in cx.fx if e[0] == "h5create"]
+        ok_shape = len(ubw) == 1 and len(tr) == 1
+        out.append(("one-new-container", z3.BoolVal(ok_shape and not [e for e in cx.fx if e[0] in ("unlink", "mfwrite")]), "merge creates one new container and removes nothing"))
+        if ok_shape:
+            merged = tr[0][1]
+            j = z3.Int(fresh_name("mj"))
+            out.append(("user-block-written-to-merged-file-only", ubw[0][1] == merged, "the only user block written is the merged container's"))
+            out.append(("merged-file-is-not-a-source-file", z3.BoolVal(True), "target created with mode 'x' (constructor contract)"))
+            wub = SRef("IH5UserBlock", ubw[0][2])
+            with at_entry(cx):
+                ul, _ = ub_ref_at(cx, entry_rec(a), n - 1)
+                u0, _ = ub_ref_at(cx, entry_rec(a), z3.IntVal(0))
+                want = [ul.py_getattr(cx, "record_uuid").t, ul.py_getattr(cx, "patch_uuid").t, ul.py_getattr(cx, "patch_index").t]
+                p0 = u0.py_getattr(cx, "prev_patch")
+                p0_isnone, p0_val = p0.isnone, p0.val.t
+            g = lambda f: wub.py_getattr(cx, f)  # noqa: E731
+            out.append(("same-record-same-patch-state", z3.And(g("record_uuid").t == want[0], g("patch_uuid").t == want[1], g("patch_index").t == want[2]), "the merged container identifies itself as the same record at the same patch state"))
+            out.append(("continues-the-chain-of-the-base", z3.And(g("prev_patch").isnone == p0_isnone, z3.Implies(z3.Not(p0_isnone), g("prev_patch").val.t == p0_val)), "prev_patch of the merged container is the base's"))
+            out.append(("hash-of-merged-payload", z3.And(z3.Not(g("hdf5_hashsum").isnone), g("hdf5_hashsum").val.t == payload_hash(cx, merged)), "the merged container carries the hash of its own payload"))
+            order = [e[0] for e in cx.fx if e[0] in ("commit-close", "open-read", "ubwrite")]
+            out.append(("hash-after-close-before-userblock", z3.BoolVal(order == ["commit-close", "open-read", "ubwrite"]), "payload hashed after the merged record was closed and before its user block is rewritten"))
+        if isinstance(res, PathVal) and ok_shape:
+            out.append(("returns-merged-file", res.t == tr[0][1], "returns the new container"))
+        return out
+
+
+def add_merge(reg):
+    reg.ctors["IH5Record"] = lambda cx, target, mode="r", **kw: TargetRecord(cx, target)
+    reg.method_bindings[("IH5Record", "__getitem__")] = lambda cx, rec, k: OvlNode("source")
+    reg.method_bindings[("IH5UserBlock", "copy")] = ub_copy
+    return [reg.add(MergeFiles())]
